@@ -14,7 +14,8 @@ enum Form { FM_LOCK, FM_TRY, FM_TRY_FOR, FM_RECURSIVE_N, FM_RELOCK_OWNED, FM_UNL
 static char const* const form_names[] = {"lock", "try_lock", "try_lock_for", "lock^k", "misuse:relock_owned", "misuse:unlock_foreign"};
 enum CsOp { CS_COUNTER, CS_PATTERN, CS_YIELD, CS_SUSPEND, CS_MIGRATE, CS_SPIN };
 static char const* const cs_names[] = {"counter", "pattern", "yield", "suspend", "migrate", "spin"};
-static const long long for_ns[] = {0, 20000, 100000, 500000, 30000000000ll};
+// (a timed wait on a pika task busy-yields until its deadline even when notified, so far deadlines only stall the case)
+static const long long for_ns[] = {0, 20000, 100000, 500000, 2000000};
 
 struct Block
 {
@@ -33,7 +34,13 @@ struct Case
     RtConfig cfg;
     std::vector<int> locks;    // kinds
     std::vector<TaskSpec> tasks;
+    // hand-off chain template: task 0 takes lock 0 and holds it until every other task has started its
+    // (single) lock/try_lock_for call, then waits h_delay and unlocks: the situation the hand-off clause names
+    bool chain = false;
+    int h_delay = 0;
+    std::vector<int> w_delay;
 };
+static const long long chain_ns[] = {0, 5000, 20000, 100000, 500000, 2000000};
 
 static Case decode(tape_t const& tape)
 {
@@ -42,21 +49,62 @@ static Case decode(tape_t const& tape)
     c.cfg = decode_config(t, {S_MUTEX_LOCK_WAIT, S_MUTEX_UNLOCK, S_CV_NOTIFY_ONE, S_CV_WAIT, S_CV_WAIT_UNTIL, S_DO_YIELD, S_SL_AFTER_RUN,
                                  S_STS_BEFORE_CAS, S_STS_BEFORE_SCHEDULE});
     c.cfg.workers = t.weighted({2, 4, 3, 3, 1, 1, 1, 1}) + 1;
+    c.chain = t.chance(1, 3);
+    if (c.chain)
+    {
+        c.cfg.workers = std::max(c.cfg.workers, 2);
+        int kind = t.weighted({3, 5, 2, 0, 0});    // mutex, timed_mutex, recursive<mutex>
+        c.locks.push_back(kind);
+        int k = 1 + static_cast<int>(t.below(4));
+        c.h_delay = static_cast<int>(t.below(6));
+        TaskSpec h;
+        Block hb;
+        hb.lock = 0;
+        hb.form = FM_LOCK;
+        h.blocks.push_back(hb);
+        c.tasks.push_back(h);
+        for (int i = 0; i < k; ++i)
+        {
+            TaskSpec w;
+            Block b;
+            b.lock = 0;
+            b.form = kind == LK_TIMED ? t.weighted({3, 1, 4}) : t.weighted({4, 1});
+            b.dur = static_cast<int>(t.below(5));
+            int ncs = t.weighted({3, 2, 1});
+            for (int q = 0; q < ncs; ++q) b.cs.push_back(t.weighted({4, 3, 3, 0, 0, 2}));
+            w.blocks.push_back(b);
+            w.hint = t.chance(1, 3) ? static_cast<int>(t.below(static_cast<std::uint32_t>(c.cfg.workers))) : -1;
+            c.tasks.push_back(w);
+            c.w_delay.push_back(static_cast<int>(t.below(6)));
+        }
+        // the unlock / notify / timed-wait hand-off sites get a mandatory perturbation half of the time
+        if (t.chance(1, 2))
+        {
+            Perturb p;
+            p.site = t.pick({S_MUTEX_UNLOCK, S_CV_NOTIFY_ONE, S_CV_WAIT_UNTIL, S_MUTEX_UNLOCK});
+            p.period = 1;
+            p.action = t.pick({0, 2});
+            p.dur = 2 + static_cast<int>(t.below(4));
+            c.cfg.plan.push_back(p);
+        }
+        return c;
+    }
     int nl = t.weighted({4, 2, 1}) + 1;
     for (int i = 0; i < nl; ++i) c.locks.push_back(t.weighted({4, 3, 2, 2, 1}));
-    int nt = 2 + static_cast<int>(t.below(23));
+    // small contention groups are as valuable as big ones: a lost hand-off stays visible only if nobody comes along to rescue the queue
+    int nt = t.chance(1, 2) ? 2 + static_cast<int>(t.below(4)) : 2 + static_cast<int>(t.below(23));
     for (int i = 0; i < nt; ++i)
     {
         TaskSpec ts;
         ts.hint = t.chance(1, 3) ? static_cast<int>(t.below(static_cast<std::uint32_t>(c.cfg.workers))) : -1;
         ts.prio = 0;
-        int nb = 1 + t.weighted({3, 3, 2, 2, 1, 1});
+        int nb = 1 + t.weighted({5, 3, 2, 2, 1, 1});
         for (int b = 0; b < nb; ++b)
         {
             Block bl;
             bl.lock = static_cast<int>(t.below(static_cast<std::uint32_t>(nl)));
             int kind = c.locks[static_cast<std::size_t>(bl.lock)];
-            bl.form = t.weighted({6, 3, 3, 2, 1, 1});
+            bl.form = t.weighted({6, 3, 5, 2, 1, 1});
             if (bl.form == FM_TRY_FOR && kind != LK_TIMED) bl.form = FM_TRY;
             if (bl.form == FM_RECURSIVE_N && kind != LK_RECURSIVE && kind != LK_RECURSIVE_SPIN) bl.form = FM_LOCK;
             if ((bl.form == FM_RELOCK_OWNED || bl.form == FM_UNLOCK_FOREIGN) && !(kind == LK_MUTEX || kind == LK_TIMED)) bl.form = FM_LOCK;
@@ -69,7 +117,7 @@ static Case decode(tape_t const& tape)
             {
                 int op = t.weighted({4, 3, 3, 2, 2, 2});
                 // a spinlock must not be held across a suspension of the task (documented use: short sections)
-                if ((kind == LK_SPIN) && (op == CS_YIELD || op == CS_SUSPEND || op == CS_MIGRATE)) op = CS_SPIN;
+                if ((kind == LK_SPIN || kind == LK_RECURSIVE_SPIN) && (op == CS_YIELD || op == CS_SUSPEND || op == CS_MIGRATE)) op = CS_SPIN;
                 bl.cs.push_back(op);
             }
             ts.blocks.push_back(std::move(bl));
@@ -83,7 +131,14 @@ static std::string describe(tape_t const& tape)
 {
     Case c = decode(tape);
     std::ostringstream os;
-    os << "{\"config\": " << c.cfg.describe() << ", \"locks\": [";
+    os << "{\"config\": " << c.cfg.describe();
+    if (c.chain)
+    {
+        os << ", \"template\": \"hand_off_chain\", \"holder_unlock_delay_ns\": " << chain_ns[c.h_delay] << ", \"waiter_start_delay_ns\": [";
+        for (std::size_t i = 0; i < c.w_delay.size(); ++i) os << (i ? "," : "") << chain_ns[c.w_delay[i]];
+        os << "]";
+    }
+    os << ", \"locks\": [";
     for (std::size_t i = 0; i < c.locks.size(); ++i) os << (i ? ", " : "") << "\"" << lock_names[c.locks[i]] << "\"";
     os << "], \"tasks\": [";
     for (std::size_t i = 0; i < c.tasks.size(); ++i)
@@ -126,8 +181,16 @@ struct LockRt
     std::atomic<long long> contended{0};
 };
 
+static void spin_ns(long long ns)
+{
+    if (ns <= 0) return;
+    struct timespec a, b;
+    clock_gettime(CLOCK_MONOTONIC, &a);
+    do { clock_gettime(CLOCK_MONOTONIC, &b); } while ((b.tv_sec - a.tv_sec) * 1000000000ll + (b.tv_nsec - a.tv_nsec) < ns);
+}
 struct State
 {
+    std::atomic<int> chain_held{0}, chain_started{0};
     std::vector<std::unique_ptr<LockRt>> locks;
     pika::counting_semaphore<> side{0};
     std::atomic<long long> held_migrations{0}, held_suspends{0}, timed_true{0}, timed_false{0}, try_false{0}, misuse_ok{0};
@@ -310,9 +373,38 @@ static void recursive_block(State& st, LockRt& l, M& rm, Block const& b, int tas
     else plain_block(st, l, rm, b, task);
 }
 
+template <typename M>
+static void chain_holder(State& st, Case const& c, LockRt& l, M& m)
+{
+    m.lock();
+    enter(l, 0);
+    st.chain_held.store(1);
+    int k = static_cast<int>(c.tasks.size()) - 1;
+    while (st.chain_started.load() < k) pika::this_thread::yield();
+    // the waiters are inside (or about to enter) their lock call: give them a moment to queue up, then unlock
+    for (int i = 0; i < 3; ++i) pika::this_thread::yield();
+    spin_ns(chain_ns[c.h_delay]);
+    leave(l, 0);
+    m.unlock();
+}
+
 static void run_task(State& st, Case const& c, int task)
 {
     TaskSpec const& ts = c.tasks[static_cast<std::size_t>(task)];
+    if (c.chain)
+    {
+        LockRt& l = *st.locks[0];
+        if (task == 0)
+        {
+            if (l.kind == LK_MUTEX) chain_holder(st, c, l, l.m);
+            else if (l.kind == LK_TIMED) chain_holder(st, c, l, l.tm);
+            else chain_holder(st, c, l, l.rm);
+            return;
+        }
+        while (st.chain_held.load() == 0) pika::this_thread::yield();
+        spin_ns(chain_ns[c.w_delay[static_cast<std::size_t>(task - 1)]]);
+        st.chain_started.fetch_add(1);
+    }
     for (Block const& b : ts.blocks)
     {
         for (int g = 0; g < b.gap; ++g) pika::this_thread::yield();
@@ -421,6 +513,7 @@ static Outcome run(tape_t const& tape)
     out.nontrivial = contended > 0 && (st.held_migrations.load() > 0 || st.held_suspends.load() > 0 || G().suspends.load() > 0);
     out.tags.push_back(std::string("policy:") + policies[c.cfg.policy]);
     out.tags.push_back("workers:" + std::to_string(c.cfg.workers));
+    if (c.chain) out.tags.push_back("template:hand_off_chain");
     for (int k : c.locks) out.tags.push_back(std::string("lock:") + lock_names[k]);
     if (contended > 0) out.tags.push_back("saw:contended_lock");
     if (st.held_migrations.load() > 0) out.tags.push_back("saw:holder_migrated");
